@@ -833,15 +833,28 @@ class IterSpec:
 
 
 class IterCell(Cell):
-  """A one-pass iterator over a z3 Seq: pos is its current position."""
+  """A one-pass iterator: pos is its current position in `seq`, or — for an
+  iterator over a live python list (`src`) — in that list's current content."""
 
-  def __init__(self, seq, codec, pos=0, owner='local', label=''):
-    self.seq, self.codec, self.pos = seq, codec, pos
+  def __init__(self, seq, codec, pos=0, owner='local', label='', src=None):
+    self._seq, self.codec, self.pos = seq, codec, pos
     self.owner = owner
     self.label = label
+    self.src = src
+
+  def cur_seq(self, ctx):
+    if self.src is not None:
+      return ctx.heap[self.src.addr].seq
+    return self._seq
+
+  @property
+  def seq(self):
+    if self.src is not None:
+      raise Unsupported('live list iterator needs a context (use cur_seq)')
+    return self._seq
 
   def iterate(self, ctx, ref):
-    return IterSpec(seq=self.seq, codec=self.codec, pos=ref)
+    return IterSpec(seq=self.cur_seq(ctx), codec=self.codec, pos=ref)
 
   def havoc(self, ctx, base):
     c = self.clone()
